@@ -65,6 +65,9 @@ POOL = [
     ([0.6, 1.2], "right"),
     # narrow lowest bin: its centre is close to zmin, so pairs out to almost the linking angle count
     ([0.1, 0.14, 0.7, 1.2], "right"),
+    # almost the first binning: an inner edge moved by 5e-7, below any sensible tolerance but enough
+    # to move the objects whose redshift sits exactly on that edge into the next bin
+    ([0.1, 0.4 - 5e-7, 0.7, 1.0], "right"),
 ]
 SCALE = dict(rmin=0.5, rmax=4.0, unit="deg")
 SCALE_PHYSICAL = dict(rmin=2000.0, rmax=25000.0, unit="kpc")
